@@ -32,6 +32,7 @@ import (
 	"context"
 	"github.com/caddyserver/certmagic"
 	"github.com/tmpim/casket"
+	"strconv"
 )
 
 // ConfigHolder is any type that has a Config; it presumably is
@@ -65,8 +66,9 @@ func QualifiesForManagedTLS(c ConfigHolder) bool {
 		// if self-signed, we've already generated one to use
 		!tlsConfig.SelfSigned &&
 
-		// user can force-disable managed TLS
-		c.Port() != "80" &&
+		// user can force-disable managed TLS; the HTTP port
+		// (which -http-port can move away from 80) serves plain HTTP
+		c.Port() != strconv.Itoa(certmagic.HTTPPort) &&
 		tlsConfig.ACMEEmail != "off" &&
 
 		// we get can't certs for some kinds of hostnames, but
